@@ -286,4 +286,124 @@ let () =
         let l = if rand_int r 4 = 0 then List.filteri (fun i _ -> i < List.length l - 1) l else l in
         k l
       done)
+
+(* ---- whole-section parses under every reader kind (no model: the harness compares the six dumps) ---- *)
+let rec uleb n = if n < 128 then [n] else ((n land 127) lor 128) :: uleb (n lsr 7)
+let rec sleb n =
+  let b = n land 127 in
+  let n' = n asr 7 in
+  if (n' = 0 && b land 64 = 0) || (n' = -1 && b land 64 <> 0) then [b] else (b lor 128) :: sleb n'
+let enc_int be w v =
+  let l = List.init w (fun i -> (v lsr (8 * i)) land 255) in if be then List.rev l else l
+let cstr r = List.init (rand_int r 5) (fun _ -> 0x61 + rand_int r 26) @ [0]
+
+let mutate r l =
+  match rand_int r 14 with
+  | 0 -> let k = rand_int r (List.length l + 1) in List.filteri (fun i _ -> i < k) l   (* truncate *)
+  | 1 -> let k = rand_int r (max 1 (List.length l)) in List.mapi (fun i x -> if i = k then rand_int r 256 else x) l
+  | 2 -> l @ rand_bytes r (1 + rand_int r 3)
+  | _ -> l
+
+let gen_abbrev r =
+  let n = rand_int r 6 in
+  let forms = [| 0x01; 0x03; 0x05; 0x08; 0x0b; 0x0e; 0x0f; 0x13; 0x17; 0x18; 0x19; 0x21; 0x1a; 0x25 |] in
+  let one code =
+    uleb code @ uleb (match rand_int r 30 with 0 -> 0 | 1 | 2 -> 0x4109 | _ -> 1 + rand_int r 0x4b)
+    @ [ (match rand_int r 40 with 0 -> 2 | x -> x land 1) ]
+    @ List.concat (List.init (rand_int r 5) (fun _ ->
+        let form = if rand_int r 40 = 0 then rand_int r 0x30 else pick r forms in
+        uleb (if rand_int r 60 = 0 then 0 else 1 + rand_int r 0x8f) @ uleb form
+        @ (if form = 0x21 then sleb (rand_int r 2000 - 1000) else [])))
+    @ [0; 0] in
+  let body = List.concat (List.init n (fun i ->
+    one (if rand_int r 30 = 0 then 1 + rand_int r 3 else if rand_int r 8 = 0 then 30 + rand_int r 30 else i + 1))) in
+  body @ (if rand_int r 8 = 0 then [] else [0])
+
+let gen_line r be asz =
+  let version = if rand_int r 40 = 0 then pick r [| 1; 6; 0 |] else 2 + rand_int r 3 in
+  let opcode_base = match rand_int r 6 with 0 -> 1 | 1 -> 10 | 2 -> 14 | _ -> 13 in
+  let line_range = match rand_int r 30 with 0 -> 0 | 1 | 2 -> 255 | _ -> 14 in
+  let std_lengths = List.init (max 0 (opcode_base - 1)) (fun i ->
+    if rand_int r 20 = 0 then rand_int r 3 else
+    (match i + 1 with 2 | 3 | 4 | 5 | 12 -> 1 | 9 -> 1 | _ -> 0)) in
+  let dirs = List.concat (List.init (rand_int r 3) (fun _ -> let c = cstr r in if c = [0] then [0x64; 0] else c)) @ [0] in
+  let files = List.concat (List.init (rand_int r 3) (fun _ ->
+    (let c = cstr r in if c = [0] then [0x66; 0] else c) @ uleb (rand_int r 3) @ uleb (rand_int r 300) @ uleb (rand_int r 70000))) @ [0] in
+  let after_hl =
+    [ (match rand_int r 30 with 0 -> 0 | 1 | 2 -> 4 | _ -> 1) ]
+    @ (if version >= 4 then [ (match rand_int r 30 with 0 -> 0 | 1 | 2 -> 4 | _ -> 1) ] else [])
+    @ [ rand_int r 2; (256 - 5) land 255; line_range; opcode_base ] @ std_lengths @ dirs @ files in
+  let ext sub payload = [0] @ uleb (1 + List.length payload) @ [sub] @ payload in
+  let prog = List.concat (List.init (rand_int r 12) (fun _ ->
+    match rand_int r 16 with
+    | 0 -> [1]
+    | 1 -> [2] @ uleb (rand_int r 500)
+    | 2 -> [3] @ sleb (rand_int r 200 - 100)
+    | 3 -> [4] @ uleb (rand_int r 4)
+    | 4 -> [5] @ uleb (rand_int r 100)
+    | 5 -> [pick r [| 6; 7; 8; 10; 11 |]]
+    | 6 -> [9] @ enc_int be 2 (rand_int r 65536)
+    | 7 -> [12] @ uleb (rand_int r 5)
+    | 8 -> ext 1 []
+    | 9 -> ext 2 (enc_int be asz (0x1000 + rand_int r 0x100000))
+    | 10 -> ext 3 (cstr r @ uleb (rand_int r 3) @ uleb 0 @ uleb 0)
+    | 11 -> ext 4 (uleb (rand_int r 9))
+    | 12 -> ext (0x80 + rand_int r 4) (rand_bytes r (rand_int r 4))
+    | _ -> [opcode_base + rand_int r (256 - opcode_base)])) @ (if rand_bool r then ext 1 [] else []) in
+  let hl = List.length after_hl in
+  let body = enc_int be 2 version @ enc_int be 4 (match rand_int r 30 with 0 -> hl + 7 | 1 -> max 0 (hl - 1) | _ -> hl) @ after_hl @ prog in
+  let ul = List.length body in
+  enc_int be 4 (match rand_int r 30 with 0 -> ul + 5 | 1 -> max 0 (ul - 2) | _ -> ul) @ body
+
+let gen_expr r be asz =
+  let one () =
+    match rand_int r 24 with
+    | 0 -> [0x30 + rand_int r 32]
+    | 1 -> [0x03] @ enc_int be asz (rand_int r 0x10000)
+    | 2 -> [0x08; rand_int r 256]
+    | 3 -> [0x10] @ uleb (rand_int r 100000)
+    | 4 -> [0x11] @ sleb (rand_int r 2000 - 1000)
+    | 5 -> [pick r [| 0x12; 0x13; 0x16; 0x22; 0x1c; 0x06; 0x96; 0x9c; 0x9f |]]
+    | 6 -> [pick r [| 0x28; 0x2f |]] @ enc_int be 2 (rand_int r 65536)
+    | 7 -> [0x93] @ uleb (rand_int r 64)
+    | 8 -> let d = rand_bytes r (rand_int r 5) in [0x9e] @ uleb (List.length d + (if rand_int r 6 = 0 then 1 + rand_int r 9 else 0)) @ d
+    | 9 -> let d = (match rand_int r 3 with 0 -> [0x30] | 1 -> [0x50 + rand_int r 32] | _ -> rand_bytes r (rand_int r 4)) in
+        [0xa3] @ uleb (List.length d) @ d
+    | 10 -> [0x91] @ sleb (rand_int r 400 - 200)
+    | 11 -> [0x70 + rand_int r 32] @ sleb (rand_int r 64 - 32)
+    | 12 -> [0x90] @ uleb (rand_int r 70)
+    | 13 -> [0x94; pick r [| 1; 2; 4; 8; 0; 9 |]]
+    | 14 -> let d = rand_bytes r (rand_int r 5) in [0xa4] @ uleb (rand_int r 300) @ [List.length d] @ d
+    | 15 -> [0xa8] @ uleb (rand_int r 300)
+    | 16 -> [0xf3] @ uleb (rand_int r 64)
+    | 17 -> [0x50 + rand_int r 32]
+    | 18 -> [0x92] @ uleb (rand_int r 40) @ sleb (rand_int r 100 - 50)
+    | 19 -> [0x9d] @ uleb (rand_int r 64) @ uleb (rand_int r 64)
+    | 20 -> [0xa0] @ enc_int be 4 (rand_int r 1000) @ sleb (rand_int r 10)
+    | 21 -> [0xa1] @ uleb (rand_int r 10)
+    | 22 -> if rand_int r 3 = 0 then [rand_int r 256] else [0x1a + rand_int r 12]
+    | _ -> [0x23] @ uleb (rand_int r 1000) in
+  List.concat (List.init (1 + rand_int r 7) (fun _ -> one ()))
+
+let () =
+  register "c10.parse" ~doc:"small generated .debug_abbrev / .debug_line (v2-4) / expression blobs (valid, truncated, mutated) parsed under each of the six reader kinds; dumps must be identical"
+    (fun ~seed ~n emit ->
+      let r = mk_rng seed in
+      let exhibits = ref 0 in
+      for i = 1 to n do
+        let be = rand_bool r in
+        let asz = pick r [| 4; 8; 8; 2 |] in
+        let what = 1 + (i mod 3) in
+        let blob = match what with
+          | 1 -> gen_abbrev r
+          | 2 -> gen_line r be (if asz = 2 then 4 else asz)
+          | _ -> gen_expr r be (if asz = 2 then 4 else asz) in
+        let blob = mutate r blob in
+        (* flag=1 (expressions only): also compare OperationIter::offset_from after an error, which exhibits
+           the known EndianSlice::empty finding; limited to the first cases so that it cannot drown the rest *)
+        let flag = if what = 3 && !exhibits < 150 then (incr exhibits; 1) else 0 in
+        let case = Printf.sprintf "c10.parse %d %d %d %d %s" what (if be then 1 else 0) flag
+            (if asz = 2 then 4 else asz) (hex_of_ints blob) in
+        emit case "same" "same"
+      done)
 let init () = ()
